@@ -3,39 +3,16 @@ Line-protocol driver: one request per line on stdin, one canonical reply per lin
 Built as a `lean_exe` (nothing below imports Mathlib).
 -/
 import Py65.Driver.Cpu
+import Py65.Driver.Handle
 
 open Py65 Py65.Driver
 
-def pyint (args : List String) : String :=
-  match args with
-  | [op, a, b] =>
-    let x := parseInt! a; let y := parseInt! b
-    match op with
-    | "and" => toString (Py.land x y)
-    | "or" => toString (Py.lor x y)
-    | "xor" => toString (Py.lxor x y)
-    | "not" => toString (Py.lnot x)
-    | "shl" => toString (Py.shl x y.toNat)
-    | "shr" => toString (Py.shr x y.toNat)
-    | "div" => toString (x / y)
-    | "mod" => toString (x % y)
-    | _ => "bad-op"
-  | _ => "bad-op"
-
 def handle (line : String) : String :=
-  match (line.trimAscii.toString.splitOn " ").filter (· ≠ "") with
+  match tokens line with
   | "cpu" :: rest => runCpu rest
-  | "pyint" :: rest => pyint rest
-  | "bg" :: [seed, w, addr] => toString (bg (parseInt! seed) (parseInt! w).toNat (parseInt! addr))
-  | _ => "bad-op"
-
-partial def loop (h : IO.FS.Stream) (out : IO.FS.Stream) : IO Unit := do
-  let line ← h.getLine
-  if line.isEmpty then return ()
-  out.putStrLn (handle line)
-  loop h out
+  | toks => (handleBase toks).getD "bad-op"
 
 def main : IO Unit := do
   let out ← IO.getStdout
-  loop (← IO.getStdin) out
+  loop handle (← IO.getStdin) out
   out.flush
